@@ -97,6 +97,7 @@ type State struct {
 	idx      int // instruction index to resume at (after an inlined call returned)
 	frames   []*frame
 	callres  map[*ssa.Call][]*CE
+	callatom map[*ssa.Call][]*Atom // decoded boolean results of inlined calls (in callee context)
 	pred     *ssa.BasicBlock
 	live     map[string]*Fact // facts still valid (re-evaluation, nil checks)
 	hist     map[string]*Fact // decisions taken on the path (never killed by effects)
@@ -115,6 +116,10 @@ func (s *State) clone() *State {
 	n.callres = make(map[*ssa.Call][]*CE, len(s.callres))
 	for k, v := range s.callres {
 		n.callres[k] = v
+	}
+	n.callatom = make(map[*ssa.Call][]*Atom, len(s.callatom))
+	for k, v := range s.callatom {
+		n.callatom[k] = v
 	}
 	n.live = make(map[string]*Fact, len(s.live))
 	for k, v := range s.live {
@@ -166,6 +171,9 @@ func (ex *Explorer) curFn(s *State) *ssa.Function {
 
 func (s *State) lookupStore(path string) (storeEnt, bool) {
 	if ce, ok := s.store[path]; ok {
+		if ce.S == tombstone {
+			return storeEnt{ce: ce}, false
+		}
 		return storeEnt{ce: ce}, true
 	}
 	// longest stored prefix followed by a selector
@@ -174,6 +182,9 @@ func (s *State) lookupStore(path string) (storeEnt, bool) {
 		if len(k) > len(best) && strings.HasPrefix(path, k) && (path[len(k)] == '.' || path[len(k)] == '[') {
 			best = k
 		}
+	}
+	if best != "" && s.store[best].S == tombstone {
+		return storeEnt{}, false
 	}
 	if best != "" {
 		return storeEnt{ce: s.store[best], suffix: path[len(best):]}, true
@@ -187,7 +198,14 @@ func (s *State) ReadLocal(path string) (string, bool) {
 	for i := 0; i < 6; i++ {
 		e, ok := s.lookupStore(path)
 		if !ok {
+			// a local that was never stored on this path (and whose knowledge was not invalidated) still has its zero value
+			if strings.HasPrefix(path, "new@") && !s.killedAround(path) {
+				return "zero:" + path, true
+			}
 			return path, i > 0
+		}
+		if e.ce.S == tombstone {
+			return path, false
 		}
 		path = e.ce.S + e.suffix
 		if !strings.HasPrefix(path, "new@") || e.suffix == "" {
@@ -195,6 +213,18 @@ func (s *State) ReadLocal(path string) (string, bool) {
 		}
 	}
 	return path, true
+}
+
+const tombstone = "⊥"
+
+// killedAround: knowledge about path (or something above/below it) was invalidated.
+func (s *State) killedAround(path string) bool {
+	for k, ce := range s.store {
+		if ce.S == tombstone && (strings.HasPrefix(path, k) || strings.HasPrefix(k, path)) {
+			return true
+		}
+	}
+	return false
 }
 
 func (s *State) key() string {
@@ -393,6 +423,24 @@ func bptr(b bool) *bool { return &b }
 // resolution of phis and locals.
 func (ex *Explorer) AtomOf(st *State, v ssa.Value) *Atom {
 	v = ex.Resolve(st, v)
+	// boolean result of an inlined call: the atom decoded when the callee returned
+	if st != nil {
+		var call *ssa.Call
+		idx := 0
+		switch x := v.(type) {
+		case *ssa.Call:
+			call = x
+		case *ssa.Extract:
+			call, _ = x.Tuple.(*ssa.Call)
+			idx = x.Index
+		}
+		if call != nil {
+			if ats, ok := st.callatom[call]; ok && idx < len(ats) && ats[idx] != nil {
+				cp := *ats[idx]
+				return &cp
+			}
+		}
+	}
 	switch x := v.(type) {
 	case *ssa.Const:
 		if x.Value != nil {
@@ -429,6 +477,16 @@ func (ex *Explorer) AtomOf(st *State, v ssa.Value) *Atom {
 				}
 				if definitelyNonNil(l) {
 					return &Atom{Const: bptr(neg)}
+				}
+				if ce := resCE(st, l); ce != nil {
+					// pointer result of an inlined call
+					if ce.S == "nil" {
+						return &Atom{Const: bptr(!neg)}
+					}
+					if ce.V != nil && definitelyNonNil(ce.V) {
+						return &Atom{Const: bptr(neg)}
+					}
+					return &Atom{Kind: "nil", X: ce.S, Neg: neg, Deps: ce.Deps, Reads: ce.Reads, XV: l}
 				}
 				if ld, ok := l.(*ssa.UnOp); ok && ld.Op == token.MUL {
 					if g, ok := ld.X.(*ssa.Global); ok && globalNeverNil(ex.P, g) {
@@ -684,8 +742,15 @@ func (ex *Explorer) killByCall(st *State, cc *ssa.CallCommon) {
 	for k := range st.store {
 		for _, root := range roots {
 			if strings.HasPrefix(k, root) {
-				delete(st.store, k)
+				st.store[k] = &CE{S: tombstone}
 				break
+			}
+		}
+	}
+	for _, root := range roots {
+		if strings.HasPrefix(root, "new@") {
+			if _, ok := st.store[root]; !ok {
+				st.store[root] = &CE{S: tombstone}
 			}
 		}
 	}
@@ -773,7 +838,9 @@ func (ex *Explorer) step(st *State, in ssa.Instruction) {
 		}
 		if localRoot != nil {
 			root := localRoot
-			if !ex.closureAllocs[root] {
+			if vc := ex.Canon(st, x.Val); vc.S == p.S {
+				// a variable copied onto itself (explicit `return ret, err` with named results): identity
+			} else if !ex.closureAllocs[root] {
 				// drop entries below this path, then record
 				for k := range st.store {
 					if strings.HasPrefix(k, p.S) && len(k) > len(p.S) {
@@ -848,7 +915,15 @@ func (ex *Explorer) forgetLoop(st *State, header *ssa.BasicBlock) {
 	}
 	for k, ce := range st.store {
 		if mention(ce.Deps) {
-			delete(st.store, k)
+			st.store[k] = &CE{S: tombstone}
+		}
+	}
+	// allocations made inside the loop are fresh objects in the next iteration
+	for k := range st.store {
+		for v := range defs {
+			if al, ok := v.(*ssa.Alloc); ok && (k == "new@"+ex.vname(al) || strings.HasPrefix(k, "new@"+ex.vname(al)+".") || strings.HasPrefix(k, "new@"+ex.vname(al)+"[")) {
+				delete(st.store, k)
+			}
 		}
 	}
 	for p := range st.phis {
@@ -933,7 +1008,7 @@ func (ex *Explorer) Run() {
 	prevRoot := currentRoot
 	currentRoot = ex.Fn
 	defer func() { currentRoot = prevRoot }()
-	init := &State{blk: ex.Fn.Blocks[0], live: map[string]*Fact{}, hist: map[string]*Fact{}, phis: map[*ssa.Phi]int{}, store: map[string]*CE{}, seen: map[string]bool{}, callres: map[*ssa.Call][]*CE{}}
+	init := &State{blk: ex.Fn.Blocks[0], live: map[string]*Fact{}, hist: map[string]*Fact{}, phis: map[*ssa.Phi]int{}, store: map[string]*CE{}, seen: map[string]bool{}, callres: map[*ssa.Call][]*CE{}, callatom: map[*ssa.Call][]*Atom{}}
 	if ex.Hooks.Assume != nil {
 		ex.Hooks.Assume(init)
 	}
@@ -1012,11 +1087,18 @@ func (ex *Explorer) Run() {
 					n := cur.clone()
 					n.parent = st
 					var res []*CE
+					var ats []*Atom
 					for _, r := range x.Results {
 						res = append(res, ex.Canon(cur, r))
+						if isBoolT(r.Type()) {
+							ats = append(ats, ex.AtomOf(cur, r))
+						} else {
+							ats = append(ats, nil)
+						}
 					}
 					n.frames = n.frames[:nf-1]
 					n.callres[fr.call] = res
+					n.callatom[fr.call] = ats
 					n.deferred = append([]*ssa.Defer(nil), fr.deferred...)
 					n.blk, n.idx, n.pred = fr.retBlk, fr.retIdx, fr.retPred
 					succs = append(succs, n)
@@ -1098,6 +1180,31 @@ func (ex *Explorer) canInline(st *State, callee *ssa.Function) bool {
 }
 
 // forgetFunc: the callee's SSA values are about to be (re)defined.
+// resCE: the bound result of an inlined call (or of an extract of one).
+func resCE(st *State, v ssa.Value) *CE {
+	if st == nil {
+		return nil
+	}
+	switch x := v.(type) {
+	case *ssa.Call:
+		if res, ok := st.callres[x]; ok && len(res) == 1 {
+			return res[0]
+		}
+	case *ssa.Extract:
+		if call, ok := x.Tuple.(*ssa.Call); ok {
+			if res, ok := st.callres[call]; ok && x.Index < len(res) {
+				return res[x.Index]
+			}
+		}
+	}
+	return nil
+}
+
+func isBoolT(t types.Type) bool {
+	b, ok := t.Underlying().(*types.Basic)
+	return ok && b.Kind() == types.Bool
+}
+
 func (ex *Explorer) forgetFunc(st *State, callee *ssa.Function) {
 	mention := func(d map[ssa.Value]bool) bool {
 		for v := range d {
@@ -1133,6 +1240,7 @@ func (ex *Explorer) forgetFunc(st *State, callee *ssa.Function) {
 	for c := range st.callres {
 		if c.Parent() == callee {
 			delete(st.callres, c)
+			delete(st.callatom, c)
 		}
 	}
 }
